@@ -186,6 +186,11 @@ class Application(object):
                 ctx.out_object = (None,) * \
                                    len(ctx.descriptor.out_message._type_info)
 
+            elif not isinstance(ctx.out_object, (list, tuple)):
+                raise TypeError("%d return values are declared, %r was "
+                    "returned" % (len(ctx.descriptor.out_message._type_info),
+                                                               ctx.out_object))
+
             # Now that the processing is switched to the outgoing message,
             # point ctx.protocol to ctx.out_protocol
             ctx.protocol = ctx.outprot_ctx
